@@ -13,6 +13,7 @@ pub fn splitmix64(x: &mut u64) -> u64 {
     z ^ (z >> 31)
 }
 
+#[allow(dead_code)]
 impl Rng {
     pub fn new(seed: u64) -> Rng {
         let mut x = seed;
